@@ -3,6 +3,12 @@
 package spynode
 
 import (
+	"context"
+	"time"
+
+	"github.com/tokenized/pkg/wire"
+	"github.com/tokenized/spynode/internal/handlers"
+	"github.com/tokenized/spynode/internal/state"
 	internalStorage "github.com/tokenized/spynode/internal/storage"
 )
 
@@ -21,4 +27,55 @@ func (node *Node) VerifPushDataHashes() [][]byte {
 		r = append(r, c)
 	}
 	return r
+}
+
+// ---- node internals for the transaction / sync harness ----
+
+func (node *Node) VerifLoad(ctx context.Context) error { return node.load(ctx) }
+
+func (node *Node) VerifState() *state.State                       { return node.state }
+func (node *Node) VerifMemPool() *state.MemPool                   { return node.memPool }
+func (node *Node) VerifTxTracker() *state.TxTracker               { return node.txTracker }
+func (node *Node) VerifTxs() *internalStorage.TxRepository        { return node.txs }
+func (node *Node) VerifPeers() *internalStorage.PeerRepository    { return node.peers }
+func (node *Node) VerifReorgs() *internalStorage.ReorgRepository  { return node.reorgs }
+func (node *Node) VerifHandlers() map[string]handlers.MessageHandler { return node.messageHandlers }
+func (node *Node) VerifTxChannel() *handlers.TxChannel            { return &node.unconfTxChannel }
+func (node *Node) VerifOutgoing() *MessageChannel                 { return &node.outgoing }
+
+// VerifDrainTxs processes every queued unconfirmed tx like processUnconfirmedTxs does.
+func (node *Node) VerifDrainTxs(ctx context.Context) error {
+	for {
+		select {
+		case tx := <-node.unconfTxChannel.Channel:
+			if err := node.processUnconfirmedTx(ctx, tx); err != nil {
+				return err
+			}
+		default:
+			return nil
+		}
+	}
+}
+
+// VerifDelayCheck runs the real checkTxDelays goroutine for a little more than one period.
+func (node *Node) VerifDelayCheck(ctx context.Context) {
+	done := make(chan struct{})
+	go func() {
+		node.checkTxDelays(ctx)
+		close(done)
+	}()
+	time.Sleep(160 * time.Millisecond)
+	node.lock.Lock()
+	node.stopping = true
+	node.lock.Unlock()
+	<-done
+	node.lock.Lock()
+	node.stopping = false
+	node.lock.Unlock()
+}
+
+func (node *Node) VerifCheck(ctx context.Context) error { return node.check(ctx) }
+
+func (node *Node) VerifHandleMessage(ctx context.Context, msg wire.Message) error {
+	return node.handleMessage(ctx, msg)
 }
